@@ -30,6 +30,8 @@ import (
 //	                e = decode failed   r = validator rejected   a = validator accepted
 //	                n = decoded, no validator applies (unsigned)   p = panic
 //	flip <bit> <cuts>   one position (replays)
+//	delap <cuts>        the Interest with its ApplicationParameters element removed
+//	every tampered packet is decoded through ReadData/ReadInterest AND ReadPacket; a differing verdict is reported
 func gen(g *common.Gen) {
 	r := g.R
 	dataSigners := []string{"sha", "hmac", "ecc", "rsa", "hmaccert", "ecccert", "rsacert", "sha", "hmac", "hmac", "ecc", "rsa", "none", "t:72:60", "ecc521", "ecc384", "ecc224"}
@@ -155,6 +157,10 @@ func gen(g *common.Gen) {
 			}
 			g.Stat("flip-sampled")
 		}
+		if strings.HasPrefix(mk, "mki") {
+			g.Op("delap c")
+			g.Op("delap %s", c03.GenCuts(r, size))
+		}
 		// one signer INSTANCE used by several goroutines at the same moment (the engine shares its
 		// command signer): every packet they build must decode and be accepted
 		if tok := strings.Fields(mk); tok[len(tok)-1] != "none" && r.Chance(1, 2) {
@@ -211,6 +217,105 @@ func decodeValidate(b *c03.Built, wire []byte, cuts string) (string, []byte) {
 		return "a", cov.Join()
 	}
 	return "r", cov.Join()
+}
+
+// decodeValidatePkt: the same through ReadPacket (the path the forwarder link service, management and
+// the client engine use)
+func decodeValidatePkt(b *c03.Built, wire []byte, cuts string) string {
+	p, ctx, err := spec.ReadPacket(c03.Reader(wire, cuts))
+	if err != nil {
+		return "e"
+	}
+	var sig ndn.Signature
+	var cov enc.Wire
+	switch {
+	case b.Kind == 'D' && p.Data != nil:
+		sig, cov = p.Data.Signature(), ctx.Data_context.SigCovered()
+	case b.Kind == 'I' && p.Interest != nil:
+		sig, cov = p.Interest.Signature(), ctx.Interest_context.SigCovered()
+	default:
+		return "e"
+	}
+	v, ok := c03.Validate(b.Signer, cov, sig)
+	switch {
+	case !ok:
+		return "n"
+	case v:
+		return "a"
+	}
+	return "r"
+}
+
+// both decoders on one input: the verdict of ReadData/ReadInterest, and "!<verdict>" appended when
+// ReadPacket's differs
+func bothVerdicts(b *c03.Built, wire []byte, cuts string) string {
+	v := common.Guard(func() string { v, _ := decodeValidate(b, append([]byte{}, wire...), cuts); return v })
+	if strings.HasPrefix(v, "PANIC") {
+		v = "p"
+	}
+	pv := common.Guard(func() string { return decodeValidatePkt(b, append([]byte{}, wire...), cuts) })
+	if strings.HasPrefix(pv, "PANIC") {
+		pv = "p"
+	}
+	if pv != v {
+		return v + "!" + pv
+	}
+	return v
+}
+
+func tlnum(b []byte) (val uint64, n int, ok bool) {
+	if len(b) == 0 {
+		return 0, 0, false
+	}
+	switch x := b[0]; {
+	case x <= 0xfc:
+		return uint64(x), 1, true
+	case x == 0xfd && len(b) >= 3:
+		return uint64(b[1])<<8 | uint64(b[2]), 3, true
+	case x == 0xfe && len(b) >= 5:
+		return uint64(b[1])<<24 | uint64(b[2])<<16 | uint64(b[3])<<8 | uint64(b[4]), 5, true
+	}
+	return 0, 0, false
+}
+
+func encTL(v int) []byte {
+	switch {
+	case v <= 0xfc:
+		return []byte{byte(v)}
+	case v <= 0xffff:
+		return []byte{0xfd, byte(v >> 8), byte(v)}
+	}
+	return []byte{0xfe, byte(v >> 24), byte(v >> 16), byte(v >> 8), byte(v)}
+}
+
+// withoutElement removes the first top-level element of type typ from the packet's value and
+// re-encodes the outer length (nil if there is none)
+func withoutElement(w []byte, typ uint64) []byte {
+	_, n1, ok := tlnum(w)
+	if !ok {
+		return nil
+	}
+	_, n2, ok := tlnum(w[n1:])
+	if !ok {
+		return nil
+	}
+	val := w[n1+n2:]
+	for off := 0; off < len(val); {
+		t, a, ok := tlnum(val[off:])
+		if !ok {
+			return nil
+		}
+		l, c, ok := tlnum(val[off+a:])
+		if !ok || off+a+c+int(l) > len(val) {
+			return nil
+		}
+		if t == typ {
+			nv := append(append([]byte{}, val[:off]...), val[off+a+c+int(l):]...)
+			return append(append(append([]byte{}, w[:n1]...), encTL(len(nv))...), nv...)
+		}
+		off += a + c + int(l)
+	}
+	return nil
 }
 
 func flipped(w []byte, bit int) []byte {
@@ -359,6 +464,9 @@ func exec(op string) string {
 			return "skip"
 		}
 		v, cov := decodeValidate(last, append([]byte{}, last.Wire...), f[1])
+		if pv := decodeValidatePkt(last, append([]byte{}, last.Wire...), f[1]); pv != v {
+			return v + "!" + pv
+		}
 		if v == "e" {
 			return "e"
 		}
@@ -383,8 +491,7 @@ func exec(op string) string {
 		if len(f) > 2 {
 			cuts = f[2]
 		}
-		v, _ := decodeValidate(last, flipped(last.Wire, bit), cuts)
-		return v
+		return bothVerdicts(last, flipped(last.Wire, bit), cuts)
 	case "flipall":
 		if last == nil {
 			return "skip"
@@ -394,15 +501,34 @@ func exec(op string) string {
 			cuts = f[1]
 		}
 		var sb strings.Builder
+		var pk []string
 		for bit := 0; bit < 8*len(last.Wire); bit++ {
-			w := flipped(last.Wire, bit)
-			v := common.Guard(func() string { v, _ := decodeValidate(last, w, cuts); return v })
-			if strings.HasPrefix(v, "PANIC") {
-				v = "p"
+			v := bothVerdicts(last, flipped(last.Wire, bit), cuts)
+			sb.WriteByte(v[0])
+			if len(v) > 1 {
+				pk = append(pk, strconv.Itoa(bit)+":"+v[2:])
 			}
-			sb.WriteString(v)
 		}
-		return strconv.Itoa(len(last.Wire)) + " " + sb.String()
+		pks := "-"
+		if len(pk) > 0 {
+			pks = strings.Join(pk, ",")
+		}
+		// pk: bit positions where ReadPacket's verdict differs from ReadData/ReadInterest's
+		return strconv.Itoa(len(last.Wire)) + " " + sb.String() + " pk=" + pks
+	case "delap":
+		// the Interest with its ApplicationParameters element REMOVED (outer length re-encoded)
+		if last == nil || last.Kind != 'I' {
+			return "skip"
+		}
+		w := withoutElement(last.Wire, 36)
+		if w == nil {
+			return "skip"
+		}
+		cuts := "c"
+		if len(f) > 1 {
+			cuts = f[1]
+		}
+		return bothVerdicts(last, w, cuts)
 	}
 	return "bad-op"
 }
